@@ -578,5 +578,10 @@ _add(
 )
 _add(
     "C32",
-    m("oneshot-handler-keeps-stale-output", "redun/cli.py", "                BaseFile(output_path).remove()\n            raise error", "            raise error", "C32.8"),
+    m("oneshot-handler-keeps-stale-output", "redun/cli.py", "                BaseFile(output_path).remove()\n            raise error", "                pass\n            raise error", "C32.8"),
+)
+_add(
+    "C06",
+    m("finalize-pops-any-holder", S, "        if self._pending_jobs.get(pending_key) is job:\n            del self._pending_jobs[pending_key]", "        self._pending_jobs.pop(pending_key, None)", "C06.7"),
+    m("pending-store-unguarded", S, "        if pending_job is None or (\n            job.recording_provenance() and not pending_job.recording_provenance()\n        ):\n            self._pending_jobs[pending_key] = job", "        self._pending_jobs[pending_key] = job", "C06.7"),
 )
